@@ -431,8 +431,9 @@ func (p *Proxy) handleCONNECT(r responder.Responder, proxyReq *http.Request) err
 
 		// The next request starts where this one's body ends. A body the exchange did not read (the answer came
 		// from the cache, or from a fetch another client made) must not be left on the connection, or its bytes
-		// are parsed as the next request.
-		if _, err := io.Copy(io.Discard, req.Body); err != nil {
+		// are parsed as the next request. A body the upstream transport has closed is already consumed (closing
+		// reads it to its end), which is no reason to end the tunnel.
+		if _, err := io.Copy(io.Discard, req.Body); err != nil && !errors.Is(err, http.ErrBodyReadAfterClose) {
 			slog.Debug("Client went away while sending its request body in CONNECT tunnel", "host", proxyReq.Host, "error", err)
 			break
 		}
